@@ -20,6 +20,7 @@ func stepBudget(n int) uint64 {
 }
 
 type totObs struct {
+	MaxStage   string // stage in which MaxRatio was measured
 	MaxRatio   float64
 	Steps      uint64
 	Reads      int
@@ -40,15 +41,25 @@ func checkC04(s *Scenario) (fail *Failure, obs *totObs) {
 	B := stepBudget(len(doc))
 	stage := "init"
 	defer simrt.SetBudget(0)
+	cur := B
 	begin := func(name string) {
 		stage = name
-		simrt.SetBudget(B)
+		cur = B
+		if name == "walk" {
+			// the harness's own callbacks start up to 150 nested walks of up to
+			// 112 callbacks each and its filtered / mixed views re-enumerate
+			// children on every call: the walk stage legitimately costs a large
+			// multiple of one traversal
+			cur = 16 * B
+		}
+		simrt.SetBudget(cur)
 	}
 	end := func() {
 		st := simrt.Steps()
 		obs.Steps += st
-		if r := float64(st) / float64(B); r > obs.MaxRatio {
+		if r := float64(st) / float64(cur); r > obs.MaxRatio {
 			obs.MaxRatio = r
+			obs.MaxStage = stage
 		}
 	}
 	fail = guard("panic", func() *Failure {
